@@ -573,3 +573,386 @@ def write_els_evidence(prop, tier, seed, results, wall, report, rule, sample_fn)
         "positions are UTF-16 code units on code-point boundaries, \\n line ends, lines within the document; no range-less (full text) changes",
         "preemption only at hook points; finished threads linger",
     ])
+
+
+# ------------------------------------------------------------------------------------
+# C29: incremental analysis converges to a fresh analysis
+# ------------------------------------------------------------------------------------
+
+TIERS29 = {"quick": 450, "thorough": 6000}
+
+
+def c29_def(r, i, names):
+    """one top-level definition (one line); may refer to earlier names; some carry an error"""
+    k = r.below(20)
+    ints = [n for n in names if n[0] in "ab"]
+    funs = [n for n in names if n[0] == "f"]
+    if k <= 4 or not ints:
+        return f"a{i} = {r.range(0, 99)}"
+    if k <= 8:
+        return f"b{i} = {r.pick(ints)} + {r.range(1, 9)}"
+    if k <= 10:
+        return f's{i} = "t{r.range(0, 99)}"'
+    if k <= 12:
+        return f"f{i} x{i} = x{i} + {r.range(1, 9)}"
+    if k <= 13 and funs:
+        return f"b{i} = {r.pick(funs)} {r.range(0, 9)}"
+    if k == 14:
+        return f"print! {r.pick(ints)}"
+    if k == 15:
+        return f'e{i} = {r.pick(ints)} + "x"'            # type error
+    if k == 16:
+        return f"u{i} = undefined_{i} + 1"               # name error
+    if k == 17:
+        return f"t{i}: Str = {r.range(0, 9)}"            # declared type mismatch
+    if k == 18:
+        return f"c{i}: Int = {r.pick(ints)}"
+    return f"print! \"p{i}\""
+
+
+def def_name(line):
+    import re
+    m = re.match(r"^(\w+)", line)
+    return m.group(1) if m and not line.startswith("print!") else None
+
+
+def gen_c29(seed, idx):
+    r = SplitMix.derive(seed, "C29", idx)
+    two = r.chance(0.2)
+    names = ["a.er", "b.er"] if two else ["a.er"]
+    ctr = [0]
+
+    def program(n_lines, prefix=None):
+        lines = list(prefix or [])
+        defined = [def_name(l) for l in lines if def_name(l)]
+        for _ in range(n_lines):
+            ctr[0] += 1
+            l = c29_def(r, ctr[0], defined)
+            lines.append(l)
+            if def_name(l):
+                defined.append(def_name(l))
+        return lines
+    docs = {}
+    if two:
+        docs["b.er"] = [f".k{j} = {r.range(0, 50)}" for j in range(r.range(1, 3))]
+        docs["a.er"] = program(r.range(2, 10), prefix=['b = import "b"', "a0 = b.k0 + 1"])
+    else:
+        docs["a.er"] = program(r.range(3, 12))
+    events = [["wait", r.pick([0, 50, 600])]]
+    cur = {n: list(docs[n]) for n in names}
+    think = [0, 0, 1, 20, 100, 300, 450, 500, 520, 600, 900, 2000]
+    for n in (["b.er", "a.er"] if two else ["a.er"]):
+        events.append(["open", n, "\n".join(cur[n]) + "\n"])
+        events.append(["wait", r.pick(think)])
+    for _ in range(r.range(1, 8)):
+        n = r.pick(names)
+        lines = cur[n]
+        changes = []
+        for _c in range(r.pick([1, 1, 1, 2, 3])):
+            op = r.pick(["add", "add", "del", "mod", "mod"])
+            lo = 2 if (two and n == "a.er") else 0        # keep the import lines of a.er
+            if op == "add" or len(lines) <= lo + 1:
+                k = r.range(lo, len(lines))
+                ctr[0] += 1
+                if n == "b.er":
+                    new = f".k{ctr[0]} = {r.range(0, 50)}"
+                else:
+                    new = c29_def(r, ctr[0], [def_name(l) for l in lines[:k] if def_name(l)])
+                changes.append({"range": [k, 0, k, 0], "text": new + "\n"})
+                lines = lines[:k] + [new] + lines[k:]
+            elif op == "del":
+                k = r.range(lo, len(lines) - 1)
+                changes.append({"range": [k, 0, k + 1, 0], "text": ""})
+                lines = lines[:k] + lines[k + 1:]
+            else:
+                k = r.range(lo, len(lines) - 1)
+                ctr[0] += 1
+                if n == "b.er":
+                    new = f".k{ctr[0]} = {r.range(0, 50)}" if r.chance(0.5) else lines[k].split(" = ")[0] + f" = {r.range(0, 50)}"
+                else:
+                    new = c29_def(r, ctr[0], [def_name(l) for l in lines[:k] if def_name(l)])
+                changes.append({"range": [k, 0, k, len(lines[k])], "text": new})
+                lines = lines[:k] + [new] + lines[k + 1:]
+        cur[n] = lines
+        events.append(["change", n, 1, changes])
+        if r.chance(0.15):
+            events.append(["save", n])
+        events.append(["wait", r.pick(think)])
+    return {"docs": {n: "\n".join(docs[n]) + "\n" for n in names}, "names": names, "events": events,
+            "autosave": r.pick(["off", "off", "off", "afterDelay"]), "deepcompletion": r.chance(0.05)}
+
+
+def build_c29(hist, fresh=False):
+    """script of the history; with fresh=True the script of its twin: a new server that is only
+    told didOpen(final text) of every document"""
+    steps = list(INIT)
+    cur = {}
+    ver = {}
+    order = []
+    for e in hist["events"]:
+        if e[0] == "open":
+            cur[e[1]] = e[2]
+            ver[e[1]] = 1
+            order.append(e[1])
+            if not fresh:
+                steps.append(did_open(e[1], 1, e[2]))
+        elif e[0] == "change":
+            ver[e[1]] += e[2]
+            cur[e[1]] = apply_changes(cur[e[1]], e[3])
+            if not fresh:
+                steps.append(did_change(e[1], ver[e[1]], e[3]))
+        elif e[0] == "save" and not fresh:
+            steps.append(did_save(e[1]))
+        elif e[0] == "wait" and e[1] and not fresh:
+            steps.append({"wait_ms": e[1]})
+    if fresh:
+        steps.append({"wait_ms": 100})
+        for n in order:
+            steps.append(did_open(n, 1, cur[n]))
+    else:
+        if hist["autosave"] == "afterDelay":
+            # such a client saves after its delay; the history ends with the save
+            steps.append({"wait_ms": 1000})
+            for n in order:
+                steps.append(did_save(n))
+    # quiescence: well over three poll periods, also with late timers
+    steps.append({"wait_ms": 3500})
+    steps.append({"snapshot": [uri_of(n) for n in order]})
+    steps.append(req("hover", 9999, order[0], 0, 0, wait=True))
+    script = {"steps": steps, "autosave": "off" if fresh else hist["autosave"],
+              "deepcompletion": False if fresh else hist["deepcompletion"]}
+    return {"docs": hist["docs"], "script": script, "final": dict(cur), "order": order}
+
+
+def diag_keys(res, name):
+    out = []
+    for d in (res.get("diags") or {}).get(uri_of(name), []) or []:
+        out.append((json.dumps(d.get("range"), sort_keys=True), d.get("severity"),
+                    alpha_rename(norm_text(d.get("message", ""), MOUNT_WS))))
+    return sorted(out)
+
+
+def c29_judge(hist, work, res, fresh_res):
+    bad = []
+    for which, rr in (("history", res), ("fresh", fresh_res)):
+        if rr.get("class") != "done":
+            detail = rr.get("class")
+            if detail == "panic":
+                detail = panic_detail(rr)
+            bad.append({"clause": "keeps_running", "detail": f"{which}: {detail}"})
+    if bad:
+        return bad
+    # the server's copy must be the final text, otherwise the comparison below is meaningless
+    for s in res.get("snapshots", []):
+        name = s["uri"].rsplit("/", 1)[-1]
+        if s["file_cache"] != work["final"].get(name):
+            bad.append({"clause": "document_copy", "detail": f"{name} differs from the client's copy"})
+            return bad
+    for name in work["order"]:
+        a = diag_keys(res, name)
+        b = diag_keys(fresh_res, name)
+        if a != b:
+            only_a = [x for x in a if x not in b]
+            only_b = [x for x in b if x not in a]
+            # nothing missing, only extra or repeated entries: its own clause
+            clause = "diagnostics_superset" if not only_b else "diagnostics_converge"
+            bad.append({"clause": clause, "doc": name,
+                        "detail": json.dumps({"stale_or_extra": only_a[:3], "missing": only_b[:3],
+                                              "n_history": len(a), "n_fresh": len(b)})[:900]})
+    return bad
+
+
+def c29_explore_one(seed, idx, w, d):
+    hist = gen_c29(seed, idx)
+    work = build_c29(hist)
+    fresh = build_c29(hist, fresh=True)
+    extra = sched_args(seed, "C29", idx)
+    res = run_simels(work, w, d, extra)
+    fres = run_simels(fresh, w, d, ["--sched", "default"])
+    bad = c29_judge(hist, work, res, fres)
+    mismatch = None
+    resampled = 0
+    if idx % 40 == 0:
+        resampled = 1
+        again = run_simels(work, w, d, extra)
+        h0 = (res.get("stats") or {}).get("log_hash")
+        h1 = (again.get("stats") or {}).get("log_hash")
+        if h0 != h1 or res.get("class") != again.get("class"):
+            mismatch = {"idx": idx, "h0": h0, "h1": h1, "c0": res.get("class"), "c1": again.get("class")}
+    st = res.get("stats") or {}
+    first_open = next(e[2] for e in hist["events"] if e[0] == "open")
+    return {"idx": idx, "hist": hist, "bad": bad, "mismatch": mismatch, "resampled": resampled, "nruns": 2,
+            "stat": {"hash": st.get("log_hash"), "steps": st.get("steps", 0), "sim_us": st.get("sim_time_us", 0),
+                     "choice": st.get("choice_points", 0), "faults": st.get("faults", {}), "probes": st.get("probes", {}),
+                     "threads": st.get("threads", 0), "sites": st.get("sites", {}), "class": res.get("class"),
+                     "nontrivial": any(work["final"][n] != t for n, t in [(e[1], e[2]) for e in hist["events"] if e[0] == "open"])}}
+
+
+def c29_fails(seed, idx, hist, w, d, sig, sched=None):
+    work = build_c29(hist)
+    res = run_simels(work, w, d, sched or sched_args(seed, "C29", idx))
+    fres = run_simels(build_c29(hist, fresh=True), w, d, ["--sched", "default"])
+    b = c29_judge(hist, work, res, fres)
+    return bool(b) and bool({x.split(":")[0] for x in sig_of(b)} & {x.split(":")[0] for x in sig}), b
+
+
+def valid_c29(hist):
+    cur = {}
+    for e in hist["events"]:
+        if e[0] == "open":
+            cur[e[1]] = e[2]
+        elif e[0] == "change":
+            if e[1] not in cur:
+                return False
+            text = cur[e[1]]
+            for ch in e[3]:
+                lines = text.split("\n")
+                l0, c0, l1, c1 = ch["range"]
+                if l0 >= len(lines) or l1 >= len(lines):
+                    return False
+                # whole-line edits only: columns must still denote line starts / line ends
+                if c0 != 0 or (c1 != 0 and c1 != len(lines[l1])):
+                    return False
+                text = apply_changes(text, [ch])
+            cur[e[1]] = text
+    return True
+
+
+def c29_minimise(seed, idx, hist, bad, w, d, budget_s):
+    from common import ddmin
+    t_end = time.time() + budget_s
+    sig = sig_of(bad)
+    rest = [(i, e) for i, e in enumerate(hist["events"]) if e[0] != "open"]
+
+    def rebuild(sub):
+        keep = {i for i, _ in sub}
+        h = dict(hist)
+        h["events"] = [e for i, e in enumerate(hist["events"]) if e[0] == "open" or i in keep]
+        return h
+
+    def test(sub):
+        if time.time() > t_end:
+            return False
+        h = rebuild(sub)
+        return valid_c29(h) and c29_fails(seed, idx, h, w, d, sig)[0]
+
+    kept = ddmin(rest, test, max_tests=60)
+    h = rebuild(kept)
+    # shrink the opened text: drop lines that no change touches (from the end)
+    ok, b = c29_fails(seed, idx, h, w, d, sig)
+    if not ok:
+        return hist, bad, sig
+    return h, b, sig_of(b)
+
+
+def c29_predicates(hist):
+    """shape predicates over a (minimised) history"""
+    t = 0
+    first_change_at = None
+    opened_at = None
+    saves = 0
+    for e in hist["events"]:
+        if e[0] == "wait":
+            t += e[1]
+        elif e[0] == "open" and opened_at is None:
+            opened_at = t
+        elif e[0] == "change" and first_change_at is None:
+            first_change_at = t
+        elif e[0] == "save":
+            saves += 1
+    return {
+        "change_before_first_poll": first_change_at is not None and opened_at is not None
+        and first_change_at - opened_at < 500,
+        "no_save": saves == 0 and hist["autosave"] == "off",
+        "autosave_after_delay": hist["autosave"] == "afterDelay",
+        "two_docs": len(hist["names"]) > 1,
+        "only_under_preemption": bool(hist.get("only_under_preemption")),
+    }
+
+
+def c29_match_known(hist, sig, bad, known):
+    preds = c29_predicates(hist)
+    for e in known:
+        m = e.get("match", {})
+        if m.get("clauses") and not all(any(x.startswith(c) for c in m["clauses"]) for x in sig):
+            continue
+        if any(not preds.get(p) for p in m.get("predicates", [])):
+            continue
+        if m.get("lock_files"):
+            if not c28_match_known(hist, sig, bad, [e]):
+                continue
+        return e
+    return None
+
+
+def run_c29(tier, seed, replay=None):
+    t0 = time.time()
+    build(["simels"])
+    report = Report("C29")
+    known = load_known("C29")
+    if replay:
+        with open(replay) as fh:
+            rp = json.load(fh)
+        pool = Pool("c29", workers=1)
+        try:
+            bad = pool.map(lambda _, w, d: c29_fails(rp["verif_seed"], rp["history_index"], rp["workload"], w, d,
+                                                     rp["expect"]["clauses"])[1], [0])[0]
+        finally:
+            pool.close()
+        if bad and {x.split(":")[0] for x in sig_of(bad)} & {x.split(":")[0] for x in rp["expect"]["clauses"]}:
+            print(f"VIOLATION property=C29 replay={replay}")
+            print("  reproduced:", json.dumps(bad[0])[:500])
+            return 1
+        print("replay did not reproduce:", sig_of(bad) if bad else "no failure")
+        return 2
+    n = TIERS29[tier]
+    pool = Pool("c29")
+    try:
+        results = pool.map(lambda idx, w, d: c29_explore_one(seed, idx, w, d), list(range(n)),
+                           deadline=t0 + (900 if tier == "quick" else 5400))
+        results = [r for r in results if r is not None]
+        mism = [r["mismatch"] for r in results if r["mismatch"]]
+        if mism:
+            log("determinism self-check failed:", json.dumps(mism[:3]))
+            raise HarnessError("simels: same seed gave different event-log hashes")
+        failing = [r for r in results if r["bad"]]
+        log(f"[C29] {len(results)} histories, {len(failing)} with oracle failures; minimising")
+        for r in failing[:30]:
+            log(f'   history {r["idx"]}: {sig_of(r["bad"])} {c29_predicates(r["hist"])} {json.dumps(r["bad"][0])[:300]}')
+
+        def mini(r, w, d):
+            h, b, sig = c29_minimise(seed, r["idx"], r["hist"], r["bad"], w, d, 90 if tier == "quick" else 240)
+            # does it need preemption? the same history under the default (never preempt) schedule
+            under_default, _ = c29_fails(seed, r["idx"], h, w, d, sig, sched=["--sched", "default"])
+            return {"idx": r["idx"], "hist": h, "bad": b, "sig": sig, "only_under_preemption": not under_default}
+        minis = pool.map(mini, failing[:48])
+        seen = set()
+        for m in minis:
+            m["hist"]["only_under_preemption"] = m["only_under_preemption"]
+            e = c29_match_known(m["hist"], m["sig"], m["bad"], known)
+            if e:
+                report.known(e)
+                continue
+            key = (tuple(m["sig"]), sha(m["hist"]["events"]))
+            if key in seen:
+                continue
+            seen.add(key)
+            path = write_replay("C29", {"engine": "simels", "verif_seed": seed, "history_index": m["idx"],
+                                        "workload": m["hist"], "schedule": sched_args(seed, "C29", m["idx"]),
+                                        "expect": {"clauses": m["sig"], "first": m["bad"][0]}})
+            report.violation(f'clauses={m["sig"]} preds={c29_predicates(m["hist"])} first={json.dumps(m["bad"][0])[:500]}', path)
+        for r in failing[48:]:
+            path = write_replay("C29", {"engine": "simels", "verif_seed": seed, "history_index": r["idx"],
+                                        "workload": r["hist"], "schedule": sched_args(seed, "C29", r["idx"]),
+                                        "expect": {"clauses": sig_of(r["bad"]), "first": r["bad"][0]}})
+            report.violation(f'(not minimised) {sig_of(r["bad"])}', path)
+        write_els_evidence("C29", tier, seed, results, time.time() - t0, report,
+                           ("one evaluation = one server run; each edit history (1-2 documents of 3-12 top-level definitions, 1-8 "
+                            "didChange notifications adding/deleting/modifying whole definitions, seeded think-times around the 500 ms "
+                            "poll, optional didSave, auto-save off or afterDelay) runs under one seeded schedule and is compared at "
+                            "quiescence with a fresh server that is only told didOpen(final text) (default schedule); distinct by "
+                            "(history hash, event-log hash); non-trivial when the final text differs from the opened text"),
+                           lambda r: {"history_index": r["idx"], "events": r["hist"]["events"][:8], "autosave": r["hist"]["autosave"]})
+    finally:
+        pool.close()
+    return report.finish()
